@@ -88,3 +88,254 @@ Proof.
   - apply Z.eqb_eq in E. subst. reflexivity.
   - destruct (t' <? t); reflexivity.
 Qed.
+
+(* ================================================================== has_z / to_pyshp of every class *)
+Remark existsb_ext' {A} (f g : A -> bool) l : (forall x, f x = g x) -> existsb f l = existsb g l.
+Proof. intros H. induction l as [|x l IH]; cbn; [reflexivity|]. rewrite H, IH. reflexivity. Qed.
+
+Lemma geq_has_z_GeoPoint : forall c, g_has_z_GeoPoint c = has_z (GPoint c).
+Proof. reflexivity. Qed.
+
+Lemma geq_has_z_GeoLineString : forall vs, g_has_z_GeoLineString vs = has_z (GLine vs).
+Proof. intros. unfold g_has_z_GeoLineString. rewrite loop_any_existsb. reflexivity. Qed.
+
+Lemma geq_has_z_GeoPolygon : forall p, g_has_z_GeoPolygon p = has_z (GPoly p).
+Proof. intros. unfold g_has_z_GeoPolygon. rewrite loop_any_existsb. reflexivity. Qed.
+
+Lemma geq_has_z_MultiGeoPoint : forall cs, g_has_z_MultiGeoPoint cs = has_z (GMPoint cs).
+Proof. intros. unfold g_has_z_MultiGeoPoint. rewrite loop_any_existsb. reflexivity. Qed.
+
+Lemma geq_has_z_MultiGeoLineString : forall ls, g_has_z_MultiGeoLineString ls = has_z (GMLine ls).
+Proof.
+  intros. unfold g_has_z_MultiGeoLineString. rewrite loop_any_existsb. cbn [has_z].
+  apply existsb_ext'. intros x. apply (geq_has_z_GeoLineString x).
+Qed.
+
+Lemma geq_has_z_MultiGeoPolygon : forall ps, g_has_z_MultiGeoPolygon ps = has_z (GMPoly ps).
+Proof.
+  intros. unfold g_has_z_MultiGeoPolygon. rewrite loop_any_existsb. cbn [has_z].
+  apply existsb_ext'. intros x. apply (geq_has_z_GeoPolygon x).
+Qed.
+
+Remark if_mkps (b : bool) k p z : (if b then mkps k p (Some z) else mkps k p None) = mkps k p (if b then Some z else None).
+Proof. destruct b; reflexivity. Qed.
+
+Remark flat_map_map_rings (ps : list polygon) :
+  flat_map (fun p => map (fun r => rev r) (linear_rings p)) ps = map (@rev coord) (flat_map linear_rings ps).
+Proof. induction ps as [|p ps IH]; cbn [flat_map map]; [reflexivity|]. rewrite map_app, IH. reflexivity. Qed.
+
+Section ToPyshp.
+  Variable orc : oracle.
+
+  Lemma geq_to_pyshp_GeoPoint : forall c, g_to_pyshp_GeoPoint c = to_pyshp orc (GPoint c).
+  Proof. intros. unfold g_to_pyshp_GeoPoint, writer_pointz, writer_point. rewrite if_mkps, geq_has_z_GeoPoint. reflexivity. Qed.
+
+  Lemma geq_to_pyshp_GeoLineString : forall vs, g_to_pyshp_GeoLineString vs = to_pyshp orc (GLine vs).
+  Proof. intros. unfold g_to_pyshp_GeoLineString, writer_linez, writer_line. cbv zeta. rewrite if_mkps, geq_has_z_GeoLineString. reflexivity. Qed.
+
+  Lemma geq_to_pyshp_MultiGeoPoint : forall cs, g_to_pyshp_MultiGeoPoint cs = to_pyshp orc (GMPoint cs).
+  Proof.
+    intros. unfold g_to_pyshp_MultiGeoPoint, writer_multipointz, writer_multipoint. cbv zeta.
+    rewrite if_mkps, geq_has_z_MultiGeoPoint. unfold to_pyshp, zs_of. cbn [esri_rings flat_map map]. rewrite app_nil_r. reflexivity.
+  Qed.
+
+  Lemma geq_to_pyshp_MultiGeoLineString : forall ls, g_to_pyshp_MultiGeoLineString ls = to_pyshp orc (GMLine ls).
+  Proof. intros. unfold g_to_pyshp_MultiGeoLineString, writer_linez, writer_line. cbv zeta. rewrite if_mkps, geq_has_z_MultiGeoLineString. reflexivity. Qed.
+
+  Lemma geq_to_pyshp_MultiGeoPolygon : forall ps, g_to_pyshp_MultiGeoPolygon ps = to_pyshp orc (GMPoly ps).
+  Proof.
+    intros. unfold g_to_pyshp_MultiGeoPolygon, writer_polyz, writer_poly. cbv zeta.
+    rewrite if_mkps, geq_has_z_MultiGeoPolygon, flat_map_map_rings. reflexivity.
+  Qed.
+
+  (* PolygonBase.to_pyshp serves GeoPolygon, GeoBox, GeoCircle / GeoEllipse, GeoRing *)
+  Lemma geq_to_pyshp_PolygonBase : forall g,
+    match g with GPoly _ | GBox _ _ _ | GRound _ _ | GRingFull _ _ | GWedge _ _ => True | _ => False end ->
+    g_to_pyshp_PolygonBase orc g = to_pyshp orc g.
+  Proof.
+    intros g Hg. unfold g_to_pyshp_PolygonBase, writer_polyz, writer_poly. cbv zeta. rewrite if_mkps.
+    destruct g; try contradiction; try reflexivity.
+    unfold has_z_polylike. rewrite geq_has_z_GeoPolygon. reflexivity.
+  Qed.
+
+  (* shape.to_pyshp(writer): the method each class inherits (class table of the current tree) *)
+  Lemma geq_dispatch_to_pyshp : forall g, dispatch_to_pyshp orc g = to_pyshp orc g.
+  Proof.
+    intros g. destruct g; cbn [dispatch_to_pyshp];
+      first [ apply geq_to_pyshp_GeoPoint | apply geq_to_pyshp_GeoLineString | apply geq_to_pyshp_MultiGeoPoint
+            | apply geq_to_pyshp_MultiGeoLineString | apply geq_to_pyshp_MultiGeoPolygon
+            | apply geq_to_pyshp_PolygonBase; exact I ].
+  Qed.
+End ToPyshp.
+
+(* ================================================================== from_pyshp of every class *)
+Definition with_shape (r : res geom) (dt : option (Z * Z)) (props : dict) : res shape :=
+  match r with Ok g => Ok (mkshape g dt props) | Err e => Err e end.
+
+Remark pop_zpop z : pop_or_none z = zpop z.
+Proof. destruct z as [[|v t]|]; reflexivity. Qed.
+
+Remark mapS_attach l : forall z,
+  mapS (fun x z => let (v, z) := pop_or_none z in (mk_coord x v, z)) l z = attach l z.
+Proof.
+  induction l as [|p l IH]; intros z; cbn [mapS attach]; [reflexivity|].
+  rewrite pop_zpop. destruct (zpop z) as [v z1]. rewrite IH. destruct (attach l z1); reflexivity.
+Qed.
+
+Remark mapS_ext {A B S} (f g : A -> S -> B * S) l : (forall a s, f a s = g a s) -> forall s, mapS f l s = mapS g l s.
+Proof. intros H. induction l as [|a l IH]; intros s; cbn [mapS]; [reflexivity|]. rewrite H. destruct (g a s). rewrite IH. reflexivity. Qed.
+
+Remark mapS_attach2 ls : forall z,
+  mapS (fun l z => let (r, z) := mapS (fun x z => let (v, z) := pop_or_none z in (mk_coord x v, z)) l z in (r, z)) ls z
+  = attach2 ls z.
+Proof.
+  induction ls as [|l ls IH]; intros z; cbn [mapS attach2]; [reflexivity|].
+  rewrite mapS_attach. destruct (attach l z) as [r z1]. rewrite IH. destruct (attach2 ls z1); reflexivity.
+Qed.
+
+Remark mapM_eta {A B} (f : A -> res B) l :
+  mapM (fun x => match f x with Ok r => Ok r | Err e => Err e end) l = mapM f l.
+Proof. induction l as [|a l IH]; cbn [mapM]; [reflexivity|]. rewrite IH. destruct (f a); reflexivity. Qed.
+
+Remark mapSM_ext {A B S} (f g : A -> S -> res (B * S)) l :
+  (forall a s, f a s = g a s) -> forall s, mapSM f l s = mapSM g l s.
+Proof.
+  intros H. induction l as [|a l IH]; intros s; cbn [mapSM]; [reflexivity|].
+  rewrite H. destruct (g a s) as [[b s1]|]; [|reflexivity]. rewrite IH. reflexivity.
+Qed.
+
+Remark len_eq1 {A} (x y : A) l : (Z.of_nat (length (x :: y :: l)) =? 1) = false.
+Proof. apply Z.eqb_neq. cbn [length]. lia. Qed.
+Remark len_gt1 {A} (x y : A) l : (1 <? Z.of_nat (length (x :: y :: l))) = true.
+Proof. apply Z.ltb_lt. cbn [length]. lia. Qed.
+
+Section FromPyshp.
+  Variable half : Z.
+
+  Lemma geq_from_pyshp_GeoPoint : forall p z dt props,
+    g_from_pyshp_GeoPoint half (GiPoint p, z) dt props = with_shape (from_pyshp half (GiPoint p) z) dt props.
+  Proof. intros p [[|v t]|] dt props; reflexivity. Qed.
+
+  Lemma geq_from_pyshp_GeoLineString : forall l z dt props,
+    g_from_pyshp_GeoLineString half (GiLineString l, z) dt props = with_shape (from_pyshp half (GiLineString l) z) dt props.
+  Proof.
+    intros. unfold g_from_pyshp_GeoLineString. cbn [fst snd gi_coords1 from_pyshp with_shape]. cbv zeta.
+    rewrite mapS_attach. destruct (attach l z); reflexivity.
+  Qed.
+
+  Lemma geq_from_pyshp_MultiGeoPoint : forall l z dt props,
+    g_from_pyshp_MultiGeoPoint half (GiMultiPoint l, z) dt props = with_shape (from_pyshp half (GiMultiPoint l) z) dt props.
+  Proof.
+    intros. unfold g_from_pyshp_MultiGeoPoint. cbn [fst snd gi_coords1 from_pyshp with_shape]. cbv zeta.
+    rewrite mapS_attach. destruct (attach l z); reflexivity.
+  Qed.
+
+  Lemma geq_from_pyshp_MultiGeoLineString : forall ls z dt props,
+    g_from_pyshp_MultiGeoLineString half (GiMultiLineString ls, z) dt props
+    = with_shape (from_pyshp half (GiMultiLineString ls) z) dt props.
+  Proof.
+    intros. unfold g_from_pyshp_MultiGeoLineString. cbn [fst snd gi_coords2 from_pyshp with_shape]. cbv zeta.
+    rewrite mapS_attach2. destruct (attach2 ls z); reflexivity.
+  Qed.
+
+  Lemma geq_from_pyshp_GeoPolygon : forall rs z dt props,
+    g_from_pyshp_GeoPolygon half (GiPolygon rs, z) dt props = with_shape (from_pyshp half (GiPolygon rs) z) dt props.
+  Proof.
+    intros. unfold g_from_pyshp_GeoPolygon. cbn [fst snd gi_coords2 from_pyshp with_shape]. cbv zeta.
+    rewrite mapS_attach2. destruct (attach2 rs z) as [rings z1]. cbn [fst].
+    destruct rings as [|shell [|h hs]].
+    - reflexivity.
+    - cbn. unfold poly_shape, poly_ctor. destruct (ctor_ring half shell); reflexivity.
+    - rewrite len_eq1, mapM_eta. cbn [tl assemble_poly].
+      destruct (mapM (ctor_ring half) (h :: hs)) as [holes|]; [|reflexivity].
+      unfold poly_shape, poly_ctor. destruct (ctor_ring half shell); reflexivity.
+  Qed.
+
+  Definition asm_step (p : list (list xy)) (z : zstate) : res (polygon * zstate) :=
+    let (rs, z1) := attach2 p z in
+    match assemble_poly half rs with Ok q => Ok (q, z1) | Err e => Err e end.
+
+  Remark mapSM_asm ps : forall z,
+    mapSM asm_step ps z =
+    match mapM (assemble_poly half) (fst (attach3 ps z)) with
+    | Ok l => Ok (l, snd (attach3 ps z)) | Err e => Err e end.
+  Proof.
+    induction ps as [|p ps IH]; intros z; [reflexivity|].
+    change (mapSM asm_step (p :: ps) z) with
+      (match asm_step p z with
+       | Err e => Err e
+       | Ok (b, s1) => match mapSM asm_step ps s1 with Err e => Err e | Ok (bs, s2) => Ok (b :: bs, s2) end
+       end).
+    cbn [attach3]. unfold asm_step at 1. destruct (attach2 p z) as [rs z1].
+    destruct (assemble_poly half rs) as [q|] eqn:E; cbv beta iota.
+    - rewrite IH. destruct (attach3 ps z1) as [pss z2]. cbn [fst snd mapM]. rewrite E.
+      destruct (mapM (assemble_poly half) pss); reflexivity.
+    - destruct (attach3 ps z1) as [pss z2]. cbn [fst snd mapM]. rewrite E. reflexivity.
+  Qed.
+
+  Lemma geq_from_pyshp_MultiGeoPolygon : forall ps z dt props,
+    g_from_pyshp_MultiGeoPolygon half (GiMultiPolygon ps, z) dt props
+    = with_shape (from_pyshp half (GiMultiPolygon ps) z) dt props.
+  Proof.
+    intros. unfold g_from_pyshp_MultiGeoPolygon. cbn [fst snd gi_coords3 from_pyshp with_shape]. cbv zeta.
+    rewrite mapSM_ext with (g := asm_step).
+    - rewrite mapSM_asm. destruct (mapM (assemble_poly half) (fst (attach3 ps z))); reflexivity.
+    - intros p s. unfold asm_step. rewrite mapS_attach2. destruct (attach2 p s) as [rings z1].
+      destruct rings as [|shell [|h hs]].
+      + reflexivity.
+      + cbn. unfold poly_ctor. destruct (ctor_ring half shell); reflexivity.
+      + rewrite len_gt1, mapM_eta. cbn [tl assemble_poly].
+        destruct (mapM (ctor_ring half) (h :: hs)) as [holes|]; [|reflexivity].
+        unfold poly_ctor. destruct (ctor_ring half shell); reflexivity.
+  Qed.
+End FromPyshp.
+
+(* ================================================================== from_shapefile: one (shape, record) pair *)
+Remark map_pair_id {A B} (l : list (A * B)) : map (fun '(k, v) => (k, v)) l = l.
+Proof. induction l as [|[k v] l IH]; cbn; [reflexivity|]. rewrite IH. reflexivity. Qed.
+
+(* conv_map dispatch on the geo-interface type, _get_dt, the property filter, <Class>.from_pyshp *)
+Lemma geq_shp_read_shape : forall half g z rec,
+  g_shp_read_shape half "datetime_s" "datetime_e" (g, z) rec = shp_read_shape half g z rec.
+Proof.
+  intros. unfold g_shp_read_shape, shp_read_shape. cbv zeta. rewrite geq_shp_get_dt, map_pair_id.
+  rewrite filter_ext' with (g := fun kv => negb (is_time_col "datetime_s" "datetime_e" (fst kv)))
+    by (intros [k v]; reflexivity).
+  destruct g; cbn [fst gi_type];
+    (match goal with |- context [convmap_has ?m ?k] => let b := eval vm_compute in (convmap_has m k) in
+       change (convmap_has m k) with b end);
+    (match goal with |- context [convmap_get ?m ?k] => let b := eval vm_compute in (convmap_get m k) in
+       change (convmap_get m k) with b end);
+    cbn [negb dispatch_from_pyshp];
+    destruct (shp_get_dt "datetime_s" "datetime_e" rec) as [dt|]; try reflexivity;
+    first [ rewrite geq_from_pyshp_GeoPoint | rewrite geq_from_pyshp_GeoLineString | rewrite geq_from_pyshp_GeoPolygon
+          | rewrite geq_from_pyshp_MultiGeoPoint | rewrite geq_from_pyshp_MultiGeoLineString
+          | rewrite geq_from_pyshp_MultiGeoPolygon ];
+    unfold with_shape;
+    match goal with |- context [from_pyshp ?h ?g ?z] => destruct (from_pyshp h g z) end; reflexivity.
+Qed.
+
+(* ================================================================== to_shapefile: the record and shape of one member *)
+Section ShpMember.
+  Variable dbf_name : string -> string.
+  Variable dbf_cell : ftype -> option json -> json.
+  Variable orc : oracle.
+
+  (* typemap = {key: type(value)}; the declared fields are those the issubclass cascade gives; the record is
+     ArchiveM.shp_record for any typing function that agrees with the cascade on the keys *)
+  Lemma geq_shp_member : forall (d : dict) (ty : string -> ftype) s idx,
+    (forall k v, In (k, v) d -> ty k = ftype_of v) ->
+    let typemap := map (fun kv => (fst kv, pytype_of (snd kv))) d in
+    g_shp_member dbf_name dbf_cell orc (g_declared_fields typemap) typemap idx s
+    = (shp_record dbf_name dbf_cell (map fst d) ty s idx, to_pyshp orc (sgeom s)).
+  Proof.
+    intros d ty s idx Hty typemap. unfold g_shp_member, shp_record, writer_record. cbv zeta.
+    rewrite geq_dispatch_to_pyshp. f_equal. f_equal. subst typemap.
+    induction d as [|[k v] d IH]; [reflexivity|].
+    cbn [map combine fst snd g_declared_fields]. rewrite geq_field_decl. cbn [fst snd].
+    rewrite (Hty k v (or_introl eq_refl)).
+    f_equal.
+    - f_equal. f_equal. destruct (jget k (properties s)); cbn [option_map]; [rewrite geq_convert_dt|]; reflexivity.
+    - apply IH. intros k' v' Hin. apply Hty. right. exact Hin.
+  Qed.
+End ShpMember.
